@@ -82,6 +82,19 @@ CLAIMED = {
         "graph-convert modes and the huge/dist converters are out of scope.",
    technique="TLA+ layout and conversion specification + TLC trace validation of real writer/reader/converter runs against independent codecs",
    engine="free+tv", design_ref="6/C12"),
+ "C17": dict(
+   category="model_checking",
+   text="SerializeAbs.tla gives the wire size of a value from its shape and the round-trip condition (equal value, exactly the "
+        "produced bytes consumed, following data intact); NetAbs.tla is the channel semantics (FIFO per source/destination/tag, "
+        "exactly once, drained at the host barrier); NetBuffered.tla model-checks aggregation by tag prefix, non-atomic assemble, "
+        "MPI FIFO, head-of-line blocked receive and message splitting for 2-3 concurrent senders (safety + delivery liveness, and "
+        "rejects an assemble that ignores tag boundaries). The real gSerialize/gDeserialize run on every compilable type at all 8 "
+        "buffer alignments with fresh and used targets; the real NetworkInterfaceBuffered runs under mpirun with 1-4 hosts, 1-4 "
+        "sender threads, 1 B - 3 MB messages, several tags and phases; TLC judges every record and replays the merged logs.",
+   note="Trusted: TLC, harness logging, payload pattern check in the harness, Open MPI. Send order on one channel is fixed by a "
+        "harness lock. Schedules are sampled on the real code, exhaustive on the model.",
+   technique="TLA+ wire-format and channel specification + TLC model checking of the aggregation protocol + TLC trace validation of real MPI runs",
+   engine="mc+free+tv", design_ref="6/C17"),
  "C05": dict(
    category="model_checking",
    text="Each barrier (counting, MCS tree, dissemination, topology-aware for 6 socket layouts, the condition-variable "
